@@ -361,9 +361,151 @@ def run(ctx):
     # modular calls, verification iterates over all variants
     reps = {c.qualname: replay_member for c in cs}
     verify_contracts(ctx, w, cs, reps)
-    ctx.level = "proof"
     ctx.solve()
+    ev, nt, samples = bounded_arfile(ctx)
+    ctx.bounded("B-06 ArFile(listing, getmember, header fields) + interleaved member operations vs io.BytesIO",
+                ev, len(nt), "archives of 0..3 members over 7 contents (empty, odd/even sizes, with/without final "
+                "newline, duplicate names), opened by file object and by file name; seeded interleaved operation "
+                "sequences; non-trivial = distinct (non-empty archive, open mode)",
+                "members <= 3, 7 contents, %d operations per archive" % (6 if ctx.tier == "quick" else 12), samples,
+                exhaustive=(ctx.tier != "quick"))
+    ctx.level = "other"
+    ctx.explanation = (
+        "PROVED (for all archives, positions, sizes, incoming file positions; three open modes): ArMember.read, "
+        "readline, readlines, seek, tell against 'io.BytesIO over data[offset:end]' - every obligation generated from "
+        "the AST of the real arfile.py and discharged by SMT. BOUNDED ONLY (not proved): ArFile.__collect_members, "
+        "ArMember.from_file, getmember/getnames (header walk, padding, header field slicing) - checked on generated "
+        "archives against an independent serializer and io.BytesIO oracles.")
+    ctx.assumptions += ["A-SEM: pyvc's encoding of the Python subset is faithful (cross-checked by replay and mutants)",
+                        "A-INT: Python int is mathematical", "open(name,'rb') returns the archive's bytes and does not fail",
+                        "ArMember.read: size <= 0 means 'to the end' (documented convention), compared with BytesIO.read(-1)"]
 
 
 def replay(ctx, data):
     return True
+
+
+# ------------------------------------------------------------------------------------------------
+# Bounded stand-in for the part not yet under contract (ArFile.__collect_members / from_file /
+# getmember / getnames) and, as an independent cross-check of the engine, for interleaved member
+# operations.  Labelled bounded; never counted as proved.
+
+def _serialize(members):
+    out = bytearray(b"!<arch>\n")
+    for name, data, mtime, owner, group, mode in members:
+        hdr = b"%-16s%-12d%-6d%-6d%-8s%-10d`\n" % (name + b"/", mtime, owner, group, mode, len(data))
+        assert len(hdr) == 60, hdr
+        out += hdr + data
+        if len(data) % 2:
+            out += b"\n"
+    return bytes(out)
+
+
+def _archives(tier, rng):
+    contents = [b"", b"a", b"ab", b"a\nb", b"x\n", b"\n\n", b"abc\nde"]
+    names = [b"m1", b"m2", b"m1"]
+    import itertools
+    for n in range(0, 4):
+        for combo in itertools.product(range(len(contents)), repeat=n):
+            if tier == "quick" and n == 3 and rng.random() > 0.25:
+                continue
+            yield [(names[i], contents[c], 1000 + i, 10 * i, 7 + i, b"100644") for i, c in enumerate(combo)]
+
+
+def bounded_arfile(ctx):
+    import random
+    from debian import arfile
+    rng = random.Random(ctx.seed)
+    evals = 0
+    nontrivial = set()
+    samples = []
+    import tempfile
+    for members in _archives(ctx.tier, rng):
+        raw = _serialize(members)
+        for mode in ("fileobj", "filename"):
+            path = None
+            try:
+                if mode == "fileobj":
+                    af = arfile.ArFile(fileobj=io.BytesIO(raw))
+                else:
+                    fd, path = tempfile.mkstemp(prefix="verif-c06-", dir="/dev/shm" if os.path.isdir("/dev/shm") else None)
+                    os.write(fd, raw)
+                    os.close(fd)
+                    af = arfile.ArFile(filename=path)
+                evals += 1
+                exp_names = [m[0].decode() for m in members]
+                got = af.getmembers()
+                problems = []
+                if af.getnames() != exp_names or [m.name for m in got] != exp_names:
+                    problems.append("names: expected %r got %r" % (exp_names, af.getnames()))
+                else:
+                    for m, (nm, data, mtime, owner, group, mode_) in zip(got, members):
+                        if (m.size, m.mtime, m.owner, m.group) != (len(data), mtime, owner, group):
+                            problems.append("header fields of %s: %r" % (m.name, (m.size, m.mtime, m.owner, m.group)))
+                    for nm in set(exp_names):
+                        last = max(i for i, x in enumerate(exp_names) if x == nm)
+                        if af.getmember(nm) is not got[last]:
+                            problems.append("getmember(%r) is not the last member of that name" % nm)
+                    # interleaved operations across members against io.BytesIO oracles
+                    oracles = [io.BytesIO(m[1]) for m in members]
+                    ops = []
+                    for step in range(6 if ctx.tier == "quick" else 12):
+                        if not members:
+                            break
+                        i = rng.randrange(len(members))
+                        op = rng.choice(["read", "readn", "readline", "readlinen", "readlines", "seek0", "seek1", "seek2", "tell"])
+                        n = len(members[i][1])
+                        if op == "read":
+                            a, b = got[i].read(), oracles[i].read()
+                        elif op == "readn":
+                            k = rng.randint(1, 3)
+                            a, b = got[i].read(k), oracles[i].read(k)
+                        elif op == "readline":
+                            a, b = got[i].readline(), oracles[i].readline()
+                        elif op == "readlinen":
+                            k = rng.randint(0, 3)
+                            a, b = got[i].readline(k), oracles[i].readline(k)
+                        elif op == "readlines":
+                            a, b = got[i].readlines(), oracles[i].readlines()
+                        elif op == "seek0":
+                            k = rng.randint(0, n + 2)
+                            got[i].seek(k)
+                            oracles[i].seek(k)
+                            a = b = None
+                        elif op == "seek1":
+                            k = rng.randint(-oracles[i].tell(), 2)
+                            got[i].seek(k, 1)
+                            oracles[i].seek(k, 1)
+                            a = b = None
+                        elif op == "seek2":
+                            k = rng.randint(-n, 1)
+                            got[i].seek(k, 2)
+                            oracles[i].seek(k, 2)
+                            a = b = None
+                        else:
+                            a, b = got[i].tell(), oracles[i].tell()
+                        ops.append((i, op))
+                        if a != b or got[i].tell() != oracles[i].tell():
+                            problems.append("op sequence %r: member %d %s gave %r (tell %d), BytesIO gave %r (tell %d)"
+                                            % (ops, i, op, a, got[i].tell(), b, oracles[i].tell()))
+                            break
+                    for m in got:
+                        m.close()
+                if len(members) >= 1:
+                    nontrivial.add((tuple((m[0], m[1]) for m in members), mode))
+                if len(samples) < 3 and members:
+                    samples.append({"archive": [[m[0].decode(), list(m[1])] for m in members], "opened_by": mode})
+                if problems:
+                    ctx.violation("B-06 ArFile listing / member isolation", "B-06 bounded: ArFile over generated archives",
+                                  problems[0], inputs={"archive_bytes": list(raw), "opened_by": mode,
+                                                       "members": [[m[0].decode(), list(m[1])] for m in members],
+                                                       "problems": problems[:3]}, confirmed=True)
+                    return evals, nontrivial, samples
+            except Exception as e:
+                ctx.violation("B-06 ArFile listing / member isolation", "B-06 bounded: ArFile over generated archives",
+                              "exception %r" % (e,), inputs={"archive_bytes": list(raw), "opened_by": mode}, confirmed=True)
+                return evals, nontrivial, samples
+            finally:
+                if path:
+                    os.unlink(path)
+    return evals, nontrivial, samples
